@@ -97,52 +97,50 @@ theorem removeSign_tids (n : Net) (x : Id) : (n.removeSign x).tids = n.tids := b
 
 /-! ### the scenario loops, knowing which ids they are run on -/
 
-theorem Scn.loop_inv' (f : Net → Id → Net) (loop : Scn → List Id → Scn × Option Err)
-    (hnil : ∀ s, loop s [] = (s, none))
-    (hcons : ∀ s i is, loop s (i :: is) =
-      match ({ s with net := f s.net i } : Scn).idsRemove i with
-      | (s2, none) => loop s2 is
-      | r => r)
+theorem Scn.loop_inv' {kind : Net → List Id} {f : Net → Id → Net} {loop : Scn → List Id → Scn × Option Err}
+    (hl : LoopShape kind f loop)
     (Q : Net → Prop) (s : Scn) (is : List Id) (hf : ∀ n, ∀ i ∈ is, Q n → Q (f n i)) (h : Q s.net) :
     Q (loop s is).1.net := by
   induction is generalizing s with
-  | nil => rw [hnil]; exact h
+  | nil => rw [hl.1]; exact h
   | cons i is ih =>
-    rw [hcons]
-    have hn := Scn.idsRemove_net ({ s with net := f s.net i } : Scn) i
-    have hq : Q (f s.net i) := hf _ i List.mem_cons_self h
-    cases hr : ({ s with net := f s.net i } : Scn).idsRemove i with
-    | mk s1 e =>
-      rw [hr] at hn
-      cases e with
-      | none => exact ih s1 (fun n j hj => hf n j (List.mem_cons_of_mem _ hj)) (by rw [hn]; exact hq)
-      | some e => show Q s1.net; rw [hn]; exact hq
+    rw [hl.2]
+    split
+    · have hn := Scn.idsRemove_net ({ s with net := f s.net i } : Scn) i
+      have hq : Q (f s.net i) := hf _ i List.mem_cons_self h
+      cases hr : ({ s with net := f s.net i } : Scn).idsRemove i with
+      | mk s1 e =>
+        rw [hr] at hn
+        cases e with
+        | none => exact ih s1 (fun n j hj => hf n j (List.mem_cons_of_mem _ hj)) (by rw [hn]; exact hq)
+        | some e => show Q s1.net; rw [hn]; exact hq
+    · exact h
 
 /-- if the loop did not raise, every id was processed: a fact `R i` that processing `i` establishes and that later
 steps keep holds at the end for every `i` of the list -/
-theorem Scn.loop_done (f : Net → Id → Net) (loop : Scn → List Id → Scn × Option Err)
-    (hnil : ∀ s, loop s [] = (s, none))
-    (hcons : ∀ s i is, loop s (i :: is) =
-      match ({ s with net := f s.net i } : Scn).idsRemove i with
-      | (s2, none) => loop s2 is
-      | r => r)
+theorem Scn.loop_done {kind : Net → List Id} {f : Net → Id → Net} {loop : Scn → List Id → Scn × Option Err}
+    (hl : LoopShape kind f loop)
     (R : Id → Net → Prop) (hest : ∀ m i, R i (f m i)) (hpres : ∀ m i j, R i m → R i (f m j))
     (s : Scn) (is : List Id) (h : (loop s is).2 = none) : ∀ i ∈ is, R i (loop s is).1.net := by
   induction is generalizing s with
   | nil => intro i hi; cases hi
   | cons i is ih =>
-    rw [hcons] at h ⊢
-    have hn := Scn.idsRemove_net ({ s with net := f s.net i } : Scn) i
-    cases hr : ({ s with net := f s.net i } : Scn).idsRemove i with
-    | mk s1 e =>
-      rw [hr] at hn h
-      cases e with
-      | none =>
-        intro j hj
-        rcases List.mem_cons.1 hj with rfl | hj
-        · exact Scn.loop_inv' f loop hnil hcons (R j) s1 is (fun n k _ hq => hpres n j k hq) (by rw [hn]; exact hest _ _)
-        · exact ih s1 h j hj
-      | some e => cases h
+    rw [hl.2] at h ⊢
+    split at h
+    · rename_i hk
+      rw [if_pos hk]
+      have hn := Scn.idsRemove_net ({ s with net := f s.net i } : Scn) i
+      cases hr : ({ s with net := f s.net i } : Scn).idsRemove i with
+      | mk s1 e =>
+        rw [hr] at hn h
+        cases e with
+        | none =>
+          intro j hj
+          rcases List.mem_cons.1 hj with rfl | hj
+          · exact Scn.loop_inv' hl (R j) s1 is (fun n k _ hq => hpres n j k hq) (by rw [hn]; exact hest _ _)
+          · exact ih s1 h j hj
+        | some e => cases h
+    · cases h
 
 theorem Scn.removeLanelets_inv' (Q : Net → Prop) (s : Scn) (args : List RmArg) (r : Bool)
     (hl : ∀ n, ∀ i ∈ args.map (·.id), Q n → Q (n.removeLanelet i))
@@ -151,11 +149,11 @@ theorem Scn.removeLanelets_inv' (Q : Net → Prop) (s : Scn) (args : List RmArg)
     (h : Q s.net) : Q (s.removeLanelets args r).1.net := by
   unfold Scn.removeLanelets
   cases r
-  · exact Scn.loop_inv' Net.removeLanelet Scn.removeLaneletLoop (fun _ => rfl) (fun _ _ _ => rfl) Q s _ hl h
+  · exact Scn.loop_inv' loopShape_lanelets Q s _ hl h
   · simp only [if_true]
     unfold Scn.removeHanging
     dsimp only
-    have h1 := Scn.loop_inv' Net.removeSign Scn.removeSigns (fun _ => rfl) (fun _ _ _ => rfl) Q s _ hs h
+    have h1 := Scn.loop_inv' loopShape_signs Q s _ hs h
     cases hr : s.removeSigns (s.net.hangingSigns args) with
     | mk s1 e =>
       rw [hr] at h1
@@ -163,14 +161,14 @@ theorem Scn.removeLanelets_inv' (Q : Net → Prop) (s : Scn) (args : List RmArg)
       | some e => exact h1
       | none =>
         dsimp only
-        have h2 := Scn.loop_inv' Net.removeLight Scn.removeLights (fun _ => rfl) (fun _ _ _ => rfl) Q s1 _ ht h1
+        have h2 := Scn.loop_inv' loopShape_lights Q s1 _ ht h1
         cases hr2 : s1.removeLights (s.net.hangingLights args) with
         | mk s2 e2 =>
           rw [hr2] at h2
           cases e2 with
           | some e => exact h2
           | none =>
-            exact Scn.loop_inv' Net.removeLanelet Scn.removeLaneletLoop (fun _ => rfl) (fun _ _ _ => rfl) Q s2 _ hl h2
+            exact Scn.loop_inv' loopShape_lanelets Q s2 _ hl h2
 
 /-- the three loops of `Scenario.remove_lanelet(…, referenced_elements=True)` all ran to the end -/
 theorem Scn.removeLanelets_done (s : Scn) (args : List RmArg) (h : (s.removeLanelets args true).2 = none) :
